@@ -25,10 +25,15 @@ func (a *Audience) UnmarshalJSON(text []byte) error {
 	}
 	switch aud := i.(type) {
 	case []any:
-		*a = make([]string, len(aud))
+		audiences := make([]string, len(aud))
 		for i, audience := range aud {
-			(*a)[i] = audience.(string)
+			s, ok := audience.(string)
+			if !ok {
+				return fmt.Errorf("oidc: audience element %d is not a string", i)
+			}
+			audiences[i] = s
 		}
+		*a = audiences
 	case string:
 		*a = []string{aud}
 	}
